@@ -51,13 +51,201 @@ def _rewrite(pattern):
 _cache = {}
 
 
+class SxMatch:
+    """match object over a symbolic string: spans come from a class representative, groups are
+    slices of the original SymChars"""
+
+    def __init__(self, m, subject):
+        self._m = m
+        self._s = subject
+        self.re = m.re
+        self.string = subject
+
+    def _slice(self, a, b):
+        if a < 0:
+            return None
+        return self._s[a:b]
+
+    def group(self, *idx):
+        if not idx:
+            idx = (0,)
+        out = [self._slice(*self._m.span(i)) for i in idx]
+        return out[0] if len(out) == 1 else tuple(out)
+
+    def groups(self, default=None):
+        return tuple((self._slice(*self._m.span(i + 1)) if self._m.span(i + 1)[0] >= 0 else default)
+                     for i in range(self._m.re.groups))
+
+    def groupdict(self, default=None):
+        return {name: (self._slice(*self._m.span(name)) if self._m.span(name)[0] >= 0 else default)
+                for name in self._m.re.groupindex}
+
+    def span(self, g=0):
+        return self._m.span(g)
+
+    def start(self, g=0):
+        return self._m.start(g)
+
+    def end(self, g=0):
+        return self._m.end(g)
+
+    def __getitem__(self, g):
+        return self.group(g)
+
+    def __bool__(self):
+        return True
+
+
+def _distinguished(pattern_text, flags):
+    """characters the pattern can tell apart individually"""
+    out = set()
+    i = 0
+    n = len(pattern_text)
+    while i < n:
+        ch = pattern_text[i]
+        if ch == '\\' and i + 1 < n:
+            nx = pattern_text[i + 1]
+            if nx not in 'dDwWsSbBAZ' and not nx.isdigit():
+                out.add(nx)
+            i += 2
+            continue
+        if ch == '(' and pattern_text[i:i + 3] == '(?P' and '>' in pattern_text[i:]:
+            i = pattern_text.index('>', i) + 1
+            continue
+        if ch == '(' and pattern_text[i:i + 2] == '(?':
+            i += 3
+            continue
+        if ch in '()[]{}|*+?.^$':
+            if ch == '[':
+                # expand small ranges a-f
+                j = pattern_text.find(']', i + 2)
+                body = pattern_text[i + 1:j] if j > 0 else ''
+                k = 0
+                while k < len(body):
+                    if k + 2 < len(body) and body[k + 1] == '-' and body[k] != '\\':
+                        lo, hi = ord(body[k]), ord(body[k + 2])
+                        if 0 < hi - lo <= 64:
+                            out.update(chr(c) for c in range(lo, hi + 1))
+                        k += 3
+                        continue
+                    if body[k] == '\\':
+                        k += 2
+                        continue
+                    out.add(body[k])
+                    k += 1
+                i = (j + 1) if j > 0 else i + 1
+                continue
+            i += 1
+            continue
+        out.add(ch)
+        i += 1
+    if flags & _re.IGNORECASE:
+        out |= {c.upper() for c in out} | {c.lower() for c in out}
+    return out
+
+
+def _representatives(subject, dist):
+    """fork every symbolic character over the classes the pattern can distinguish; returns a
+    concrete representative string of the same length"""
+    from .chars import SymChars
+    from .core import sx_and
+    rep = []
+    digits_free = [c for c in '0123456789' if c not in dist]
+    lowers_free = [c for c in 'qzxjkvw' if c not in dist]
+    uppers_free = [c for c in 'QZXJKVW' if c not in dist]
+    for c in subject.cps:
+        if isinstance(c, int):
+            rep.append(chr(c))
+            continue
+        chosen = None
+        for d in sorted(dist):
+            if c.lo <= ord(d) <= c.hi and c == ord(d):
+                chosen = d
+                break
+        if chosen is None:
+            if digits_free and sx_and(c >= 48, c <= 57):
+                chosen = digits_free[0]
+            elif lowers_free and sx_and(c >= 97, c <= 122):
+                chosen = lowers_free[0]
+            elif uppers_free and sx_and(c >= 65, c <= 90):
+                chosen = uppers_free[0]
+            elif c == 95:
+                chosen = '_'
+            elif c == 32:
+                chosen = ' '
+            elif sx_and(c >= 9, c <= 13):
+                chosen = '\t'
+            elif c < 128:
+                # some other ASCII punctuation / control character not named by the pattern
+                chosen = next((p for p in '~`!@#%&;<>,"\'' if p not in dist), '\x01')
+                if c < 32:
+                    chosen = '\x01'
+            else:
+                chosen = '\u00e9' if c < 0x370 else '\u4e2d'
+        rep.append(chosen)
+    return ''.join(rep)
+
+
+class SxPattern:
+    def __init__(self, pattern_text, flags):
+        self.pattern = pattern_text
+        self.flags = flags
+        self._p = _re.compile(_rewrite(pattern_text), flags)
+        self.groups = self._p.groups
+        self.groupindex = self._p.groupindex
+        self._dist = None
+
+    def _sym(self, s):
+        from .chars import SymChars
+        return isinstance(s, SymChars)
+
+    def _run(self, name, s, *a):
+        if not self._sym(s):
+            return getattr(self._p, name)(s, *a)
+        if self._dist is None:
+            self._dist = _distinguished(self.pattern, self.flags)
+        rep = _representatives(s, self._dist)
+        m = getattr(self._p, name)(rep, *a)
+        return SxMatch(m, s) if m is not None else None
+
+    def match(self, s, *a):
+        return self._run('match', s, *a)
+
+    def search(self, s, *a):
+        return self._run('search', s, *a)
+
+    def fullmatch(self, s, *a):
+        return self._run('fullmatch', s, *a)
+
+    def sub(self, repl, s, count=0):
+        if self._sym(s):
+            from .core import Unsupported
+            raise Unsupported('re.sub on a symbolic string')
+        return self._p.sub(repl, s, count)
+
+    def subn(self, repl, s, count=0):
+        return self._p.subn(repl, s, count)
+
+    def split(self, s, maxsplit=0):
+        return self._p.split(s, maxsplit)
+
+    def findall(self, s, *a):
+        return self._p.findall(s, *a)
+
+    def finditer(self, s, *a):
+        return self._p.finditer(s, *a)
+
+    def __getattr__(self, name):
+        return getattr(self._p, name)
+
+
 def _compile(pattern, flags=0):
-    if isinstance(pattern, _re.Pattern):
+    if isinstance(pattern, (_re.Pattern, SxPattern)):
         return pattern
     key = (pattern, flags)
     p = _cache.get(key)
     if p is None:
-        p = _cache[key] = _re.compile(_rewrite(pattern), flags)
+        p = _cache[key] = SxPattern(pattern, flags) if isinstance(pattern, str) else _re.compile(pattern, flags)
     return p
 
 
